@@ -265,6 +265,9 @@ class C08(core.Property):
         "the model reports a schedule that breaks it instead of trusting it",
     ]
     hypotheses = [
+        "held_le_capacity: policies constructed with `capacity`; FairQueue has no `capacity`, its bound is fair_held_le_capacity: max_flows = some F, "
+        "per_flow_capacity = some P and 1 <= P (the constructor raises ValueError for per_flow_capacity < 1; with P = 0 the model, like the code's push path, "
+        "would still take the first item of a fresh flow: decided counterexample in HappyProofs/C08/FairCap.lean; fair_held_le_capacity_any drops 1 <= P with bound F * max P 1)",
         "pipe theorems: Setting (repaired driver, Server worker with fixed limit, queue policy FIFO / LIFO / stable priority / deadline / "
         "adaptive LIFO / fair / weighted fair, with or without the balking wrapper; RED and CoDel excluded). The pipeline model polls the policy at clock 0 "
         "and passes coin=false: inside a pipeline run a deadline queue expires nothing and the balking wrapper refuses only what its inner policy refuses "
@@ -288,7 +291,6 @@ class C08(core.Property):
         "every request takes the same number w0 of units (a lighter arrival behind a heavy head would wait without a notify)",
     ]
     partial_theorems = {
-        "HappyModel.C08.held_le_capacity": "all policies constructed with `capacity`; FairQueue's bound max_flows*per_flow_capacity is only checked by the judge",
     }
     variants = ["repaired", "current"]
 
@@ -1248,6 +1250,10 @@ pipew = types.SimpleNamespace(generate=pipew_generate, run_impl=pipew_run_impl, 
 THEOREMS: list[str] = [
     "HappyModel.C08.conservation",
     "HappyModel.C08.held_le_capacity",
+    "HappyModel.C08.fair_held_le_capacity",        # FairQueue(max_flows F, per_flow_capacity P >= 1): held <= F * P after every operation list
+    "HappyModel.C08.fair_flows_le_capacity",       # … at most F flows, each holding at most P, total = sum of the flow depths
+    "HappyModel.C08.fair_held_le_capacity_run",    # … after every prefix of the run
+    "HappyModel.C08.fair_held_le_capacity_any",    # without P >= 1: held <= F * max P 1 (the model's first push into a fresh flow is not tested against P)
     "HappyModel.C08.fifo_order",
     "HappyModel.C08.lifo_order",
     "HappyModel.C08.prio_stable",
